@@ -5,8 +5,8 @@
 (*   C04 print -> parse round trip        C05 literals denote their values  *)
 (*   C06 total, all-or-nothing, positions C08 layout invariance             *)
 (*   C15 declared sizes                   C19 messages parsed independently *)
-EXTENDS SmlPrinter, Json, TLC
-CONSTANTS ChunkSize, AsIsD10, AsIsD12
+EXTENDS SmlNorm, Json, TLC
+CONSTANTS ChunkSize
 Trace == ndJsonDeserialize("trace.ndjson")
 VARIABLE l
 E == Trace[l]
@@ -16,36 +16,6 @@ TNext == \/ l = 0 /\ l' \in {-k : k \in {j \in 1..Len(Trace) : j % ChunkSize = 1
          \/ l > 0 /\ l < Len(Trace) /\ l % ChunkSize # 0 /\ l' = l + 1
 TSpec == TInit /\ [][TNext]_l
 
-Lx(t) == INSTANCE SmlLexer WITH input <- t
-P(t, fo) == INSTANCE SmlParser WITH input <- t, floats <- fo
-
-\* ------------------------------------------------------------------ normal forms
-\* recorded (projected) messages
-NormElJ(x) == IF "var" \in DOMAIN x THEN [var |-> x.var]
-              ELSE IF "b" \in DOMAIN x THEN [b |-> x.b]
-              ELSE IF "t" \in DOMAIN x THEN [t |-> x.t]
-              ELSE IF "bits" \in DOMAIN x THEN [bits |-> x.bits]
-              ELSE OfJson(x)
-RECURSIVE NormJ(_)
-NormJ(x) == IF x.f = "none" THEN [f |-> "none"]
-            ELSE IF x.f = "L" THEN [f |-> "L", e |-> [i \in 1..Len(x.e) |->
-                    IF IsItem(x.e[i]) THEN NormJ(x.e[i]) ELSE IF IsEllEl(x.e[i]) THEN [ell |-> x.e[i].ell] ELSE [var |-> x.e[i].var]]]
-            ELSE IF x.f = "A" THEN (IF "var" \in DOMAIN x
-                                    THEN [f |-> "A", var |-> x.var, lo |-> FromDec(x.lo.dec), hi |-> IF x.hi.neg THEN <<>> ELSE FromDec(x.hi.dec), hasHi |-> ~x.hi.neg]
-                                    ELSE [f |-> "A", s |-> x.s])
-            ELSE [f |-> x.f, e |-> [i \in 1..Len(x.e) |-> NormElJ(x.e[i])]]
-NormMsgJ(m) == [name |-> m.name, s |-> m.s, f |-> m.f, w |-> m.w, dir |-> m.dir, item |-> NormJ(m.item)]
-\* model messages: float elements resolved through the oracle
-FloatBits(fo, cs, w) == LET I == {i \in 1..Len(fo) : fo[i].tok = cs /\ fo[i].w = w} IN
-                        IF I = {} THEN <<>> ELSE fo[CHOOSE i \in I : TRUE].bits
-RECURSIVE NormM(_, _)
-NormM(v, fo) == IF v.f = "none" THEN [f |-> "none"]
-                ELSE IF v.f = "L" THEN [f |-> "L", e |-> [i \in 1..Len(v.e) |-> IF "f" \in DOMAIN v.e[i] THEN NormM(v.e[i], fo) ELSE v.e[i]]]
-                ELSE IF v.f = "A" THEN v
-                ELSE IF v.f \in {"F4", "F8"} THEN [f |-> v.f, e |-> [i \in 1..Len(v.e) |->
-                        IF "fl" \in DOMAIN v.e[i] THEN [bits |-> FloatBits(fo, v.e[i].fl, Width(CodeOf(v.f)))] ELSE v.e[i]]]
-                ELSE v
-NormMsgM(m, fo) == [m EXCEPT !.item = NormM(m.item, fo)]
 Model(e) == LET r == P(e.text, e.floats)!ParseText IN
             [outcome |-> r.outcome, msgs |-> [i \in 1..Len(r.msgs) |-> NormMsgM(r.msgs[i], e.floats)], errs |-> r.errs, warns |-> r.warns]
 Pos(ds) == [i \in 1..Len(ds) |-> <<ds[i].ln, ds[i].col>>]
